@@ -12,11 +12,19 @@ import cgroup
 from cgroup import Case
 
 ID = "C05"
-LEAN_MODULES = ["FaxVerif.C05.Theorems", "FaxVerif.C05.TheoremsFragment"]
+LEAN_MODULES = ["FaxVerif.C05.Theorems", "FaxVerif.C05.TheoremsFragment", "FaxVerif.C05.TheoremsNested"]
 LEAN_SOURCES = ["FaxVerif/C05", "FaxVerif/Cpp", "FaxVerif/Gen"]
 DRIVER = cgroup.DRIVER
 SETUP_MODULES = cgroup.DRIVER_IMPORTS  # what the driver imports
 THEOREMS = [
+    "FaxVerif.C05.inner_accumulator_restarts",
+    "FaxVerif.C05.storage_vector_restarts",
+    "FaxVerif.C05.nested_event_post_partial",
+    "FaxVerif.C05.nested_init_pre",
+    "FaxVerif.C05.nested_job_correct_partial",
+    "FaxVerif.C05.nested_job_split",
+    "FaxVerif.C05.nested_prefix_independent",
+    "FaxVerif.C05.nested_perm",
     "FaxVerif.C05.fragment_job_correct_partial",
     "FaxVerif.C05.fragment_job_blocks_partial",
     "FaxVerif.C05.fragment_job_split",
@@ -52,7 +60,10 @@ LEVEL_TEXT = (
     "(fragment_job_split), independence of the prefix (fragment_prefix_independent: the rows of event k are those of running it "
     "alone from the initial class state) and permutation of the events (fragment_perm) — proved from the class-state invariant "
     "'vector columns empty, scalar columns declared' that every event re-establishes (fragment_event_post_partial, "
-    "fragment_init_pre). (2) Lean 4 theorems for every package accepted by the verified static checker EventLocal (definite assignment from an empty "
+    "fragment_init_pre). The same for the NESTED fragment (loops inside lambdas: per-element inner aggregates, 2-D columns): the inner "
+    "accumulator and the 2-D storage vector restart for every outer element (inner_accumulator_restarts, storage_vector_restarts) and a "
+    "job is the concatenation of its events (nested_job_correct_partial, nested_job_split, nested_prefix_independent, nested_perm). "
+    "(2) Lean 4 theorems for every package accepted by the verified static checker EventLocal (definite assignment from an empty "
     "initial knowledge + vector columns cleared after every fill): one job = concatenation of per-event runs from the initial "
     "class state, for all event lists; split, prefix-independence and permutation corollaries. The checker is run on the "
     "implementation's own parsed output for every generated query on the three backends, so each accepted program is a theorem "
